@@ -6,18 +6,21 @@ import json, os, sys
 HERE = os.path.dirname(os.path.dirname(os.path.abspath(__file__)))
 sys.path.insert(0, HERE)
 from rules.core import engine
-from rules.core.rules import guard_inventory, err_inventory, condition_inventory, mustpass_inventory, fns_in_files, owner_qual
+from rules.core.rules import guard_inventory, err_inventory, condition_inventory, mustpass_inventory, wiring_inventory, fns_in_files, owner_qual
 from rules.core.inventory_rule import all_anchor_files
 from rules.core.panics import TABLES
 
 configs = sys.argv[1:] or ['A', 'B', 'C', 'D', 'P']
-gi, ei, ci, mi = {}, {}, {}, {}
+gi, ei, ci, mi, wi = {}, {}, {}, {}, {}
 gp, ep = os.path.join(TABLES, 'guard_inventory.json'), os.path.join(TABLES, 'err_inventory.json')
 cp_, mp_ = os.path.join(TABLES, 'condition_inventory.json'), os.path.join(TABLES, 'mustpass_inventory.json')
 if os.path.exists(gp):
     gi = json.load(open(gp)); ei = json.load(open(ep))
+wp_ = os.path.join(TABLES, 'wiring_inventory.json')
 if os.path.exists(cp_):
     ci = json.load(open(cp_)); mi = json.load(open(mp_))
+if os.path.exists(wp_):
+    wi = json.load(open(wp_))
 for c in configs:
     P = engine.load_prog(c)
     gi[c] = guard_inventory(P, r'.')
@@ -31,6 +34,9 @@ for c in configs:
     ci[c] = {k: dict(v, __file__=owner_file.get(k, '?')) for k, v in cc.items()}
     mm = mustpass_inventory(P, files)
     mi[c] = {k: {'file': owner_file.get(k, '?'), 'callees': v} for k, v in mm.items()}
+    ww = wiring_inventory(P, files)
+    wi[c] = {k: dict(v, __file__=owner_file.get(k, '?')) for k, v in ww.items()}
+    print(c, 'wirings', sum(len(v) - 1 for v in wi[c].values()))
     print(c, 'conditions', sum(len(v) - 1 for v in ci[c].values()), 'must-pass callees', sum(len(v['callees']) for v in mi[c].values()))
     print(c, 'functions with guards', len(gi[c]), 'guards', sum(sum(v.values()) for v in gi[c].values()),
           'functions constructing errors', len(ei[c]), 'constructions', sum(len(v) for v in ei[c].values()))
@@ -39,3 +45,4 @@ json.dump(gi, open(gp, 'w'), indent=1, sort_keys=True)
 json.dump(ei, open(ep, 'w'), indent=1, sort_keys=True)
 json.dump(ci, open(cp_, 'w'), indent=1, sort_keys=True)
 json.dump(mi, open(mp_, 'w'), indent=1, sort_keys=True)
+json.dump(wi, open(wp_, 'w'), indent=1, sort_keys=True)
